@@ -97,4 +97,36 @@ CountLfp(G, W, C) ==
 
 NDerivCapped(G, W) == CountLfp(G, W, [x \in SpanDom(G, W) |-> 0])[<<Start(G), 0, Len(W)>>]
 
+(* ------------------------------------------------------------------ *)
+(* The same count with an arbitrary cap K, computed over the derivable   *)
+(* spans only (so that inputs of a dozen tokens are affordable).         *)
+(* ------------------------------------------------------------------ *)
+CapK(K, n) == IF n > K THEN K ELSE n
+
+RECURSIVE SumCapK(_, _, _)
+SumCapK(K, f, S) == IF S = {} THEN 0
+                    ELSE LET x == CHOOSE x \in S : TRUE IN CapK(K, f[x] + SumCapK(K, f, S \ {x}))
+
+RECURSIVE CountFromK(_, _, _, _, _, _, _, _, _)
+CountFromK(G, W, Sp, C, K, alpha, k, i, j) ==
+  IF k > Len(alpha) THEN (IF i = j THEN 1 ELSE 0)
+  ELSE LET s == alpha[k] IN
+       IF IsT(G, s)
+       THEN IF i < j /\ W[i + 1] = s THEN CountFromK(G, W, Sp, C, K, alpha, k + 1, i + 1, j) ELSE 0
+       ELSE LET M == {m \in i..j : <<s, i, m>> \in Sp /\ C[<<s, i, m>>] # 0}
+                f == [m \in M |-> CapK(K, C[<<s, i, m>>] * CountFromK(G, W, Sp, C, K, alpha, k + 1, m, j))]
+            IN SumCapK(K, f, M)
+
+RECURSIVE CountLfpK(_, _, _, _, _)
+CountLfpK(G, W, Sp, C, K) ==
+  LET C2 == [x \in DOMAIN C |->
+               LET f == [r \in RulesOf(G, x[1]) |-> CountFromK(G, W, Sp, C, K, G.rules[r].r, 1, x[2], x[3])]
+               IN SumCapK(K, f, RulesOf(G, x[1]))]
+  IN IF C2 = C THEN C ELSE CountLfpK(G, W, Sp, C2, K)
+
+NDerivCappedAt(G, W, K) ==
+  LET Sp == Spans(G, W) IN
+  IF <<Start(G), 0, Len(W)>> \notin Sp THEN 0
+  ELSE CountLfpK(G, W, Sp, [x \in Sp |-> 0], K)[<<Start(G), 0, Len(W)>>]
+
 =============================================================================
